@@ -830,13 +830,13 @@ impl Property for C08 {
     fn cases(&self, tier: Tier) -> u64 {
         match tier {
             Tier::Quick => 600,
-            Tier::Thorough => 30_000,
+            Tier::Thorough => 600_000,
         }
     }
     fn min_nontrivial(&self, tier: Tier) -> u64 {
         match tier {
             Tier::Quick => 5_000,
-            Tier::Thorough => 250_000,
+            Tier::Thorough => 5_000_000,
         }
     }
     fn rule(&self) -> &'static str {
